@@ -36,7 +36,8 @@ func (m *Machine) constText(s string) Text {
 	if len(s) > 0 {
 		id = m.textID("const:" + s)
 	}
-	return Text{m.IntC(int64(w)), m.IntC(int64(len(s))), m.IntC(int64(nl)), m.IntC(0), id}
+	lit := s
+	return Text{m.IntC(int64(w)), m.IntC(int64(len(s))), m.IntC(int64(nl)), m.IntC(0), id, &lit}
 }
 
 // textID returns a distinct constant id per distinct key.
@@ -55,7 +56,7 @@ func (m *Machine) textID(key string) T {
 func (m *Machine) FreshText(hint string) Text {
 	c := m.C
 	s := m.intSort()
-	t := Text{c.Fresh(hint+".w", s), c.Fresh(hint+".n", s), m.IntC(0), m.IntC(0), c.Fresh(hint+".id", s)}
+	t := Text{W: c.Fresh(hint+".w", s), N: c.Fresh(hint+".n", s), NL: m.IntC(0), CUU: m.IntC(0), ID: c.Fresh(hint+".id", s)}
 	z := m.IntC(0)
 	m.Assume(c.And(m.sle(z, t.W), m.sle(z, t.N), m.sle(t.W, m.IntC(1<<20)), m.sle(t.N, m.IntC(1<<22)),
 		c.Implies(c.Eq(t.N, z), c.Eq(t.W, z)), m.slt(m.IntC(1<<40), t.ID)), "text "+hint+": 0<=width, 0<=len, len=0 => width=0")
@@ -66,7 +67,15 @@ func (m *Machine) Concat(a, b Text) Text {
 	c := m.C
 	z := m.IntC(0)
 	id := c.Ite(c.Eq(a.N, z), b.ID, c.Ite(c.Eq(b.N, z), a.ID, c.UF("cat", m.intSort(), a.ID, b.ID)))
-	return Text{m.add(a.W, b.W), m.add(a.N, b.N), m.add(a.NL, b.NL), m.add(a.CUU, b.CUU), id}
+	var lit *string
+	if a.Lit != nil && b.Lit != nil {
+		l := *a.Lit + *b.Lit
+		lit = &l
+		if l != "" {
+			id = m.textID("const:" + l)
+		}
+	}
+	return Text{m.add(a.W, b.W), m.add(a.N, b.N), m.add(a.NL, b.NL), m.add(a.CUU, b.CUU), id, lit}
 }
 
 func (m *Machine) add(a, b T) T { return m.C.Bin(sym.OpAdd, a, b) }
